@@ -57,6 +57,10 @@ def cases(tier: str, seed: int) -> list[dict]:
     nrand = 4 if tier == "quick" else 30
     for _ in range(nrand):
         meshes.append(W.random_mesh(rng, rng.randint(2, 6), rng.randint(2, 5), shape=rng.choice(["rect", "skew"])))
+    # meshes that are not one simply connected piece: two separate patches, and a ring of cells around an island
+    meshes.append(W.mesh_from_squares([["Q", "N", "A"], ["N", "N", "N"], ["B", "N", "Q"]], shape="rect"))
+    meshes.append(W.mesh_from_squares([["Q", "Q", "Q"], ["Q", "N", "Q"], ["Q", "A", "Q"]], shape="skew"))
+    nspecial = 2
     out = []
     for k, m in enumerate(meshes):
         m = meshtabs.supplied_tables(m, rng)
@@ -64,6 +68,9 @@ def cases(tier: str, seed: int) -> list[dict]:
             chosen = encs
         else:
             chosen = rng.sample(encs, 24 if tier == "quick" else 60)
+        if k >= len(meshes) - nspecial:
+            # ... with every encoding that leaves all edge tables to be derived
+            chosen = chosen[:12] + [x for x in encs if not x["supplied"] or x["supplied"] == ["ff"]]
         # the tables stored in the narrowest integer type that holds every index and the fill value (int8 from a dozen
         # nodes on, int16 otherwise): products of two indexes do not fit that type
         big = max(len(m["nodes"]), len(m["edges"]), len(m["faces"])) + 1
